@@ -60,7 +60,15 @@ def vm_slice_obligation(prop="C02"):
     q["defines"].update({"VERIF_M0": 128, "VERIF_M1": 128, "VERIF_M2": 2, "VERIF_STACK_SIZE": 5})
     q["unwind"] = 30
     q["strength"] = "B(source string length <= 3; start and length over the full int64 range)"
-    return [o, q]
+    obs = [o, q]
+    for sfx, d in (("", {}), (".oob", {"VERIF_CHARAT_OOB": 1})):
+        c = vmstep.step(prop, "%s.vm.STR_CHAR_AT%s" % (prop, sfx), "h_c02_charat", "STR_CHAR_AT", must_have=[r"C02\.vm STR_CHAR_AT", r"COVER"], timeout=900, witness=None)
+        c["defines"].update({"VERIF_M0": 128, "VERIF_M1": 2, "VERIF_M2": 1, "VERIF_STACK_SIZE": 5})
+        c["defines"].update(d)
+        c["unwind"] = 30
+        c["strength"] = "B(source string length <= 3, no NUL inside; index over the full int64 range%s)" % (", out of range" if sfx else ", in range")
+        obs.append(c)
+    return obs
 
 
 def cg_obligations(prop="C02"):
